@@ -44,7 +44,9 @@ Definition run (kind : Z) (inp : list Z) : list Z :=
   | 1601 => run_tier true inp
   | 1602 => run_udp_parse inp
   | 1603 => run_http_parse inp
+  | 1604 => run_net_nesting inp
   | 1105 => run_wqueue inp
+  | 1106 => run_net_nesting inp
   | 1201 => run_mse_honest inp
   | 1202 => run_mse_responder inp
   | 1203 => run_mse_initiator inp
@@ -103,7 +105,9 @@ Definition mon (kind : Z) (inp obs : list Z) : bool :=
   | 1601 => mon_tier inp obs
   | 1602 => mon_udp_parse inp obs
   | 1603 => mon_http_parse inp obs
+  | 1604 => list_eqb_Z (run_net_nesting inp) obs
   | 1105 => list_eqb_Z (run_wqueue inp) obs
+  | 1106 => list_eqb_Z (run_net_nesting inp) obs
   | 1201 => list_eqb_Z (run_mse_honest inp) obs
   | 1202 => list_eqb_Z (run_mse_responder inp) obs
   | 1203 => list_eqb_Z (run_mse_initiator inp) obs
